@@ -309,8 +309,16 @@ pub mod time {
     /// A wrapper around [`parse_duration`] that converts errors into [`ExecutionError`].
     /// and only returns the duration, rather than returning the remaining input.
     fn _duration(i: &str) -> Result<chrono::Duration> {
-        let (_, duration) = crate::duration::parse_duration(i)
+        let (rest, duration) = crate::duration::parse_duration(i)
             .map_err(|e| ExecutionError::function_error("duration", e.to_string()))?;
+        // a bare `"0"` / `"-0"` is returned unconsumed by the parser; anything else left over
+        // means the text is not a duration
+        if !rest.is_empty() && !(rest == "0" && (i == "0" || i == "-0")) {
+            return Err(ExecutionError::function_error(
+                "duration",
+                format!("unexpected trailing text '{rest}'"),
+            ));
+        }
         Ok(duration)
     }
 
